@@ -79,26 +79,28 @@ def _as_set(x, what):
 
 
 def check(case):
-    lab = _check_graph(case, _mat(case))
+    A = _mat(case)
+    lab = _check_graph(case, A)
     if case.get("edit"):
-        # the caller edits the SAME array in place (drops / adds an edge) and asks again: answers must follow the edit
-        A = _mat(case)
+        # the caller edits the SAME array object in place (drops / adds an edge) and asks again: answers must follow the
+        # edit (no other array with these values was shown to the library in between)
         first = dict(case, what=["paths", "sep", "reach", "comp"])
-        _check_graph(first, A)
         i, j, mode = case["edit"]
         p = len(A)
         i, j = i % p, j % p
-        if i != j:
-            if mode == "drop":
-                nz = np.argwhere(A != 0)
-                if len(nz):
-                    a, b = nz[(i * p + j) % len(nz)]
-                    A[a, b] = 0
-            elif A[i, j] == 0 and A[j, i] == 0:
-                A[i, j] = 1
-            if G.directed_part_acyclic(G.rows_from_matrix(A)):
-                _check_graph(first, A, "after an in-place edit of the same array: ")
-                lab = lab + ["edited_in_place"]
+        edited = False
+        if mode == "drop":
+            nz = np.argwhere(A != 0)
+            if len(nz):
+                a, b = nz[(i * p + j) % len(nz)]
+                A[a, b] = 0
+                edited = True
+        elif i != j and A[i, j] == 0 and A[j, i] == 0:
+            A[i, j] = 1
+            edited = True
+        if edited and G.directed_part_acyclic(G.rows_from_matrix(A)):
+            _check_graph(first, A, "after an in-place edit of the same array: ")
+            lab = lab + ["edited_in_place"]
     return lab
 
 
